@@ -171,3 +171,98 @@ def run_conditions(rec, module, conds, default_timeout=60, twins=True, procs=Non
         else:
             rec.oblig(name, INCONCLUSIVE, "CrossHair output not understood: " + detail[-300:], secs, structure)
     return results
+
+
+def run_enumerated(rec, module, conds, procs=None, budget_s=600):
+    """conds: dicts with fn, what, sig, box {arg: (lo, hi)}, pre [python expressions over the args].
+    Exhaustive plain evaluation of the finite box (no solver): recorded as such in the evidence."""
+    import json as _json
+    procs = procs or int(os.environ.get("VERIF_PROCS", "0") or 0) or os.cpu_count() or 4
+
+    def job(c):
+        t0 = time.time()
+        cmd = [sys.executable, "-m", "vt.enumrun", module, c["fn"], _json.dumps(c["box"]), _json.dumps(c.get("pre", [])), str(c.get("budget", budget_s))]
+        try:
+            r = subprocess.run(cmd, capture_output=True, text=True, env=_env(), cwd=VERIF, timeout=c.get("budget", budget_s) + 120)
+            out = (r.stdout.strip().splitlines() or [r.stderr[-300:]])[-1]
+        except subprocess.TimeoutExpired:
+            out = "TIMEOUT"
+        return c, out, time.time() - t0
+
+    with ThreadPoolExecutor(max_workers=procs) as ex:
+        results = list(ex.map(job, conds))
+    tot = 0
+    for c, out, secs in results:
+        name = c.get("what", c["fn"]) + " [exhaustive enumeration of the finite parameter box]"
+        structure = c.get("structure", module)
+        if out.startswith("OK"):
+            n = int(out.split()[1])
+            tot += n
+            rec.oblig(name, HOLDS if n > 0 else INCONCLUSIVE, "%d points evaluated" % n, secs, structure)
+        elif out.startswith("FAIL"):
+            rec.oblig(name, VIOLATED, out[:300], secs, structure)
+            try:
+                point = _json.loads(out[5:out.index("}") + 1])
+            except Exception:  # noqa
+                point = {}
+            argtext = ", ".join("%s=%r" % kv for kv in point.items())
+            ok, rtxt = replay(module, c["fn"], argtext)
+            rec.violation(c.get("sig", "%s.%s" % (module, c["fn"])), "%s: counterexample %s(%s) -> %s" % (c.get("viol", c.get("what", c["fn"])), c["fn"], argtext, rtxt),
+                          {"module": module, "function": c["fn"], "args": point, "replay": rtxt}, replayed=ok)
+        else:
+            rec.oblig(name, INCONCLUSIVE, out[:200], secs, structure)
+    rec.extra["enumerated_points"] = rec.extra.get("enumerated_points", 0) + tot
+    return results
+
+
+_RNG1 = re.compile(r"(-?\d+)\s*<=\s*(\w+)\s*(<=|<)\s*(-?\d+)")
+
+
+def box_from_source(module, fn):
+    """(box, pre expressions) if every parameter of the harness function is an int with a literal range in its preconditions, else None."""
+    fns, _ = _functions(module)
+    f = fns[fn]
+    args = [(a.arg, ast.unparse(a.annotation) if a.annotation else "") for a in f.args.args]
+    if not args or any(t != "int" for _, t in args):
+        return None
+    doc = ast.get_docstring(f) or ""
+    pres = [l.strip()[4:].strip() for l in doc.splitlines() if l.strip().startswith("pre:")]
+    box = {}
+    for p in pres:
+        for lo, name, op, hi in _RNG1.findall(p):
+            hi = int(hi) - (1 if op == "<" else 0)
+            if name in box:
+                box[name] = (max(box[name][0], int(lo)), min(box[name][1], hi))
+            else:
+                box[name] = (int(lo), hi)
+    for a, _ in args:
+        if a not in box:
+            # pinned by an equality (e.g. `fi == (fp + 1) % 4`): give it a generous range, the pre filter selects
+            eq = [p for p in pres if re.search(r"\b%s\s*==" % a, p)]
+            if not eq:
+                return None
+            box[a] = (-1, 12)
+    size = 1
+    for lo, hi in box.values():
+        size *= max(0, hi - lo + 1)
+    if size > 2000000:
+        return None
+    return {a: box[a] for a, _ in args}, pres
+
+
+def run_auto(rec, module, conds, default_timeout=120, enumerate_ints=True):
+    """Conditions whose parameters are all small-range ints are decided by exhaustive enumeration; the others by CrossHair."""
+    en, ch = [], []
+    for c in conds:
+        b = box_from_source(module, c["fn"]) if enumerate_ints and not c.get("force_crosshair") else None
+        if b:
+            c = dict(c, box=b[0], pre=b[1])
+            en.append(c)
+        else:
+            ch.append(c)
+    if en:
+        run_enumerated(rec, module, en)
+    if ch:
+        run_conditions(rec, module, ch, default_timeout=default_timeout)
+    rec.extra["conditions_enumerated"] = rec.extra.get("conditions_enumerated", 0) + len(en)
+    rec.extra["conditions_crosshair"] = rec.extra.get("conditions_crosshair", 0) + len(ch)
